@@ -12,6 +12,7 @@ pub mod c15;
 pub mod c19;
 pub mod c20;
 pub mod grammar;
+pub mod loop2;
 pub mod loopprops;
 pub mod proto;
 
@@ -29,9 +30,12 @@ pub fn run(id: &str, tier: Tier) -> i32 {
         "C11" => c11::run(tier),
         "C12" => c12::run(tier),
         "C12-part" => c12::run_part(tier),
+        "C13" => loop2::run_c13(tier),
         "C14" => c14::run(tier),
         "C15" => c15::run(tier),
         "C16" => c16::run(tier),
+        "C17" => loop2::run_c17(tier),
+        "C18" => loop2::run_c18(tier),
         "C19" => c19::run(tier),
         "C20" => c20::run(tier),
         "C08" => loopprops::run_c08(tier),
@@ -46,6 +50,7 @@ pub fn replay(id: &str, case: &Value) -> i32 {
         "C07" => c07::replay(case),
         "C11" => c11::replay(case),
         "C12" => c12::replay(case),
+        "C13" | "C17" | "C18" => loop2::replay(id, case),
         "C14" => c14::replay(case),
         "C15" => c15::replay(case),
         "C16" => c16::replay(case),
